@@ -7,8 +7,8 @@ from .._change import ListInsert
 from .._change import Replace
 from .._global_state import state
 from .._sentinels import undefined
-from .._unmanaged import Unmanaged
 from .._utils import value_to_token
+from .generic_value import contains_user_controlled_parts
 from .generic_value import GenericValue
 from .generic_value import clone
 
@@ -63,8 +63,7 @@ class CollectionValue(GenericValue):
 
             if (
                 old_node is not None
-                and not isinstance(old_value, Unmanaged)
-                and not isinstance(old_node, ast.JoinedStr)
+                and not contains_user_controlled_parts(old_value, old_node)
                 and not self._file._same_tokens(old_node, new_token)
             ):
                 new_code = self._file._token_to_code(new_token)
